@@ -1,6 +1,6 @@
 """C07 - import resolution terminates, succeeds exactly when possible, reports failures (structural clauses)."""
 from facts import walk, render, role, is_call, AnalysisBroken
-from engines import ff, nth_arg, receiver, path, unwrap_defarg
+from engines import enclosing_conditions, ff, nth_arg, receiver, path, unwrap_defarg
 import recursion
 import faillog
 from faillog import _can_reach
@@ -285,5 +285,19 @@ def run(F, rep):
                       '%s carries the import history but asks `%s`, which starts from an empty history: the imports followed so far are forgotten at this step' % (f_.short, render(c)[:60]),
                       'a different kind of entity (its own walk starts there)')
     rep.ok('C07.D1', 'scan', None, '%d history carriers, %d history-less wrappers, %d wrapper calls from carriers' % (len(carriers), len(wrappers), n_d))
+
+    # ------------------------------------------------------------------ R: what was resolved earlier is still verified now
+    rep.rule('C07.R1', 'inside fetchUnits/fetchComponent the recursive fetch of an imported child depends on the child being an import (and on earlier failures) only, never on whether its import source already holds a model: '
+                       '"resolved before" is not "checked now" - the child\'s own reference may be wrong or its chain unfetched, and resolveImports would answer true while hasUnresolvedImports() is true')
+    n_r = 0
+    for nm in ('fetchUnits', 'fetchComponent'):
+        g = F.fn1('Importer::ImporterImpl::' + nm)
+        for c in g.walk():
+            if c.get('k') == 'Call' and c.get('fn') in ('fetchUnits', 'fetchComponent') and g.enclosing_lambda(c) is None:
+                n_r += 1
+                bad = [render(cnd)[:70] for cnd, br, st in enclosing_conditions(g, c) if any(x.get('k') == 'Call' and x.get('fn') in ('hasModel', 'isResolved', 'model') and 'importSource' in render(x) for x in walk(cnd))]
+                rep.check(not bad, 'C07.R1', '%s|%s' % (nm, render(c)[:50]), g.where(c), '%s fetches the imported child only when `%s`' % (g.short, '` and `'.join(bad)), 'depends on isImport() and earlier failures only')
+    if n_r < 3:
+        raise AnalysisBroken('C07.R1: nested fetch calls: %d found, 4 confirmed' % n_r)
 
 
